@@ -271,7 +271,12 @@ def scalar_ufunc(ufunc, method, *inputs, **kw):
 def dispatch_function(func, args, kwargs):
     if func in HANDLED:
         return HANDLED[func](*args, **kwargs)
-    r = func(*plain(args), **{k: plain(v) for k, v in kwargs.items()})
+    try:
+        r = func(*plain(args), **{k: plain(v) for k, v in kwargs.items()})
+    except (TypeError, AttributeError) as ex:
+        # NumPy's own implementation choking on object cells is a modelling gap, not behaviour of the code under analysis
+        # (which may well swallow it in a broad `except Exception`)
+        raise ShimGap(f"np.{getattr(func, '__name__', func)} on a symbolic array is not modelled: {type(ex).__name__}: {ex}")
     return wrap(r)
 
 
@@ -636,6 +641,22 @@ def _all(a, axis=None, **kw):
 @implements(np.dot)
 def _dot(a, b, out=None):
     return _wrapres(np.dot(np.asarray(_obj(a), dtype=object), np.asarray(_obj(b), dtype=object)))
+
+
+@implements(np.linalg.norm)
+def _norm(x, ord=None, axis=None, keepdims=False):  # noqa: A002
+    if ord not in (None, 2, "fro") or axis is not None or keepdims:
+        raise ShimGap("linalg.norm with options")
+    x = np.asarray(_obj(x), dtype=object).ravel()
+    s2 = _fold("add", [toc(v).abs2() for v in x])
+    return lift(s2).sqrt()
+
+
+@implements(np.vdot)
+def _vdot(a, b):
+    a = np.asarray(_obj(a), dtype=object).ravel()
+    b = np.asarray(_obj(b), dtype=object).ravel()
+    return _fold("add", [(x.conjugate() if hasattr(x, "conjugate") else x) * y for x, y in zip(a, b)])
 
 
 @implements(np.array_equal)
